@@ -9,7 +9,7 @@ Definition n (z : Z) : cell := Some (VInt z).
    with stale contents above the top *)
 Definition pre0 := [n 100; Some (VRef 1); n 102].
 Definition l0 := [n 1; Some VNil; n 3].
-Definition r0 : registry := mkReg (pre0 ++ l0 ++ [n 77; None; n 78] ++ fresh 3) 6 4 40.
+Definition r0 : registry := mkReg (pre0 ++ l0 ++ [n 77; None; n 78] ++ fresh 3) 6 12 4 40.
 
 Example r0_rel : Rr r0 (pre0 ++ l0) 40.
 Proof. constructor; vm_compute; try reflexivity; try discriminate. left. discriminate. Qed.
@@ -36,7 +36,7 @@ Example settop_ex : exists r', SetTop r0 4 = Ok r' /\ Rr r' (resizeN (pre0 ++ l0
 Proof. apply settop_spec_lemma; [exact r0_rel|lia]. Qed.
 
 (* a host function frame: function at register 3, two junk values, three results *)
-Definition rG : registry := mkReg (pre0 ++ [Some (VRef 9); n 50; n 51; n 1; n 2; n 3] ++ fresh 4) 9 0 0.
+Definition rG : registry := mkReg (pre0 ++ [Some (VRef 9); n 50; n 51; n 1; n 2; n 3] ++ fresh 4) 9 13 0 0.
 Example rG_rel : Rr rG (pre0 ++ Some (VRef 9) :: [n 50; n 51] ++ [n 1; n 2; n 3]) 13.
 Proof. constructor; vm_compute; try reflexivity; try discriminate. left. discriminate. Qed.
 Example gresults_pad : exists r', gReturn rG 3 3 5 = Ok r' /\ Rr r' (pre0 ++ adjust 5 [n 1; n 2; n 3]) 13.
